@@ -25,6 +25,8 @@ type sstEnt struct {
 	Val  string `json:"val"` // hex
 	Meta byte   `json:"meta"`
 	Exp  uint64 `json:"exp"`
+	// Stale: added through AddStaleEntryWithLen (as a compaction does for deleted / expired entries)
+	Stale bool `json:"stale,omitempty"`
 }
 
 // sstTarget: key = KeyWithTs(base, Ver) where base is the base key of entry
@@ -214,7 +216,7 @@ func observe(st *lsm.VerifSST, es []lsm.VerifEntry, d *sstDesc, stats *sstStats)
 		sqs = append(sqs, fmt.Sprintf("SQ %s %s %s", corr.Bool(sq.Asc), corr.List(idxs), corr.List(rs)))
 		stats.seqSeeks += len(keys)
 	}
-	return fmt.Sprintf("(OS %s %s %d %d %s %s %s %s)", corr.List(lay), corr.Hex(bloom), maxVer, keyCount,
+	return fmt.Sprintf("(OT %s %s %d %d %d %s %s %s %s)", corr.List(lay), corr.Hex(bloom), maxVer, keyCount, st.StaleDataSize(),
 		olist(es, fwd), olist(es, rev), corr.List(qs), corr.List(sqs)), nil
 }
 
@@ -233,7 +235,15 @@ func sstCase(c *corr.Ctx, d *sstDesc) (corr.Case, error) {
 	sstFid++
 	fid := sstFid
 	env := lsm.VerifNewTableEnv(dir, d.BlockSize, d.BloomFP)
-	st, err := env.VerifBuildTable(fid, es)
+	stale := make([]bool, len(es))
+	var staleIdx []uint64
+	for i, e := range d.Entries {
+		if e.Stale {
+			stale[i] = true
+			staleIdx = append(staleIdx, uint64(i))
+		}
+	}
+	st, err := env.VerifBuildTableStale(fid, es, stale)
 	if err != nil {
 		return corr.Case{}, err
 	}
@@ -279,7 +289,21 @@ func sstCase(c *corr.Ctx, d *sstDesc) (corr.Case, error) {
 		reopened = "(Reopened " + reopened + ")"
 		c.Count("reopened_differs")
 	}
-	term := fmt.Sprintf("Cs %d %s %d %d %s %s %s %s", d.BlockSize, corr.Bool(withBloom), bpk, k, entsTerm(es), corr.List(tg), built, reopened)
+	term := fmt.Sprintf("Ct %d %s %d %d %s %s %s %s %s", d.BlockSize, corr.Bool(withBloom), bpk, k, entsTerm(es), corr.ListN(staleIdx), corr.List(tg), built, reopened)
+	c.CountN("stale_adds", len(staleIdx))
+	if len(staleIdx) > 0 && withBloom {
+		c.Count("cases_with_stale_adds_and_bloom")
+	}
+	// a stale entry whose user key has no other version in the table
+	nver := map[string]int{}
+	for _, e := range es {
+		nver[string(kv.ParseKey(e.Key))]++
+	}
+	for i, e := range es {
+		if stale[i] && nver[string(kv.ParseKey(e.Key))] == 1 {
+			c.Count("stale_only_version_of_its_key")
+		}
+	}
 	c.Count(fmt.Sprintf("blocks_%s", bucket(s1.blocks)))
 	c.Count(fmt.Sprintf("block_size_%d", d.BlockSize))
 	c.CountN("search_hits", s1.hits)
@@ -361,6 +385,7 @@ func genSstDesc(r *rand.Rand, maxEntries, maxTargets int) *sstDesc {
 	}
 	sort.Slice(keys, func(i, j int) bool { return utils.CompareKeys(keys[i], keys[j]) < 0 })
 	valLens := []int{0, 1, 5, 20, 20, 40}
+	staleMode := r.Intn(2) == 0 // a compaction-built table: some entries go through the stale path
 	for _, k := range keys {
 		vl := corr.Pick(r, valLens)
 		switch r.Intn(40) {
@@ -375,7 +400,8 @@ func genSstDesc(r *rand.Rand, maxEntries, maxTargets int) *sstDesc {
 		r.Read(v)
 		d.Entries = append(d.Entries, sstEnt{Key: hex.EncodeToString(k), Val: hex.EncodeToString(v),
 			Meta: corr.Pick(r, []byte{0, 0, 1, 2, 0x40, 0x80, 0xff}),
-			Exp:  corr.Pick(r, []uint64{0, 0, 0, 1, 127, 128, 1 << 40, math.MaxUint64})})
+			Exp:  corr.Pick(r, []uint64{0, 0, 0, 1, 127, 128, 1 << 40, math.MaxUint64}),
+			Stale: staleMode && r.Intn(3) == 0})
 	}
 	// targets: every stored key and its neighbours
 	tseen := map[string]bool{}
@@ -435,7 +461,7 @@ func genSstDesc(r *rand.Rand, maxEntries, maxTargets int) *sstDesc {
 func runSst(c *corr.Ctx) error {
 	c.Meta("run_module", "RunSst")
 	c.Meta("exhaustive", false)
-	c.Meta("rule", "random sorted entry sets (1..24 entries, every 40th case up to 120; user keys over {a,b,00,ff} with optional long shared prefix, with and without CF marker; 11 versions incl. 0 and 2^64-1; values 0..40 bytes, sometimes 300 or 4200; meta/expiry at varint boundaries), block sizes {40,64,100,150,256,4096}, bloom fp {0,0.0001,0.01,0.3}; targets = every stored key, version +-1, max, 0, key++00, key minus last byte, random; Search(maxVs 0 / own version / random), Seek+3*Next both directions, 8..12 repeated Seeks on ONE iterator per direction jumping between blocks (incl. two key families aaaa-/bbbb- sharing no prefix), full iteration both directions, block index, bloom bytes; all repeated after reopening the file. non-trivial = >= 2 blocks and at least one forward seek target strictly between the last key of a block and the next base key")
+	c.Meta("rule", "build programs mixing AddKey and AddStaleEntryWithLen (half of the cases: each entry stale with probability 1/3; plus fixed cases where a stale entry is the only version of its key, with and without bloom; StaleDataSize compared) over random sorted entry sets (1..24 entries, every 40th case up to 120; user keys over {a,b,00,ff} with optional long shared prefix, with and without CF marker; 11 versions incl. 0 and 2^64-1; values 0..40 bytes, sometimes 300 or 4200; meta/expiry at varint boundaries), block sizes {40,64,100,150,256,4096}, bloom fp {0,0.0001,0.01,0.3}; targets = every stored key, version +-1, max, 0, key++00, key minus last byte, random; Search(maxVs 0 / own version / random), Seek+3*Next both directions, 8..12 repeated Seeks on ONE iterator per direction jumping between blocks (incl. two key families aaaa-/bbbb- sharing no prefix), full iteration both directions, block index, bloom bytes; all repeated after reopening the file. non-trivial = >= 2 blocks and at least one forward seek target strictly between the last key of a block and the next base key")
 	if c.Replay != "" {
 		cases, err := c.ReplayCases()
 		if err != nil {
@@ -476,6 +502,36 @@ func runSst(c *corr.Ctx) error {
 			return err
 		}
 		c.Emit(cs)
+	}
+	// stale adds: a deleted/expired entry that is the only version of its user key, between
+	// live keys, with and without bloom filter, one block and one entry per block
+	for _, fp := range []float64{0.01, 0} {
+		for _, bs := range []int{4096, 64} {
+			d := &sstDesc{BlockSize: bs, BloomFP: fp}
+			for i, uk := range []string{"k1", "k2", "k3", "k4"} {
+				for _, v := range []uint64{9, 4} {
+					if (uk == "k2" || uk == "k4") && v == 4 {
+						continue // single-version keys
+					}
+					e := sstEnt{Key: hex.EncodeToString(kv.KeyWithTs([]byte(uk), v)), Val: strings.Repeat("63", 20)}
+					if uk == "k2" || (uk == "k3" && v == 4) || (uk == "k4" && bs == 64) {
+						e.Stale, e.Meta, e.Exp = true, 1, 1
+					}
+					d.Entries = append(d.Entries, e)
+				}
+				_ = i
+			}
+			for i := range d.Entries {
+				for _, v := range []uint64{10, 9, 5, 4, 3} {
+					d.Targets = append(d.Targets, sstTarget{Idx: i, Ver: v})
+				}
+			}
+			cs, err := sstCase(c, d)
+			if err != nil {
+				return err
+			}
+			c.Emit(cs)
+		}
 	}
 	// two key families whose base keys share no prefix, many blocks, one iterator
 	// re-positioned from family to family (stale block-iterator state must not leak)
